@@ -90,6 +90,7 @@ func cmdMerge(args []string) {
 	wall := fs.Float64("wall", 0, "wall seconds of the whole check")
 	instr := fs.String("instrument", "", "instrument.json")
 	expect := fs.Int("expect", 0, "number of partial files expected")
+	died := fs.Int("died", 0, "workers that died without a partial result (violations of the others are still reported; without one the check is exit 2)")
 	fs.StringVar(&treeSHA, "tree", "", "tree fingerprint")
 	fs.Parse(args)
 
@@ -359,6 +360,10 @@ func cmdMerge(args []string) {
 		os.Exit(1)
 	}
 	if len(premise) > 0 {
+		os.Exit(2)
+	}
+	if *died > 0 {
+		fmt.Fprintf(os.Stderr, "merge: %d worker(s) died without a result and the others found no violation: machinery trouble, exit 2 (not a verdict)\n", *died)
 		os.Exit(2)
 	}
 	if watchdogs > 0 {
